@@ -180,8 +180,26 @@ func (b *bodies) make(n, dig int) []byte {
 		b.bySha = map[string][2]int{}
 	}
 	h := sha256.Sum256(out)
-	b.bySha[hex.EncodeToString(h[:])] = [2]int{n, dig}
+	if _, ok := b.bySha[hex.EncodeToString(h[:])]; !ok {
+		b.bySha[hex.EncodeToString(h[:])] = [2]int{n, dig}
+	}
 	return out
+}
+
+// canon returns the number under which a body with this content was first registered:
+// bodies with equal content (all empty bodies, colliding short ones) share one number.
+func (b *bodies) canon(n, dig int) int {
+	out := make([]byte, n)
+	x := uint32(dig)*2654435761 + 12345
+	for i := range out {
+		x = x*1664525 + 1013904223
+		out[i] = byte(x >> 24)
+	}
+	h := sha256.Sum256(out)
+	if v, ok := b.bySha[hex.EncodeToString(h[:])]; ok && v[0] == n {
+		return v[1]
+	}
+	return dig
 }
 
 func (b *bodies) back(body []byte) (int, int) {
